@@ -146,37 +146,39 @@ def check_var(ctx):
     lp = [l for l in A.walk_local(ll) if isinstance(l, ast.For)]
     ok = False
     why = "no loop over the rows"
+    svar_src = None
     if len(lp) == 1:
         l = lp[0]
-        it = l.iter
-        zargs = [A.inline_temporaries(a, l, ll) for a in it.args[0].args] if isinstance(it, ast.Call) and A.call_name(it) == "enumerate" and isinstance(it.args[0], ast.Call) and A.call_name(it.args[0]) == "zip" else []
-        svar_expr = zargs[1] if len(zargs) == 2 else None
-        if len(zargs) == 2 and canon(zargs[0]) == "self.orbits":
-            i = l.target.elts[0].id
-            orb, s = [e.id for e in l.target.elts[1].elts]
-            st = [x for x in l.body if isinstance(x, ast.Assign) and isinstance(x.targets[0], ast.Subscript) and canon(x.targets[0].value) == "lls"]
+        roles = A.loop_roles(l.target, l.iter)
+        idx = [k for k, (kind, _) in roles.items() if kind == "index"]
+        orbs = [k for k, (kind, src) in roles.items() if kind == "elem" and canon(A.inline_temporaries(src, l, ll)) == "self.orbits"]
+        others = [k for k, (kind, src) in roles.items() if kind == "elem" and k not in orbs]
+        if len(idx) == 1 and len(orbs) == 1 and len(others) == 1 and len(roles) == 3:
+            i, orb, s = idx[0], orbs[0], others[0]
+            svar_src = roles[s][1]
+            st = [x for x in l.body if isinstance(x, ast.Assign) and isinstance(x.targets[0], ast.Subscript) and isinstance(x.targets[0].value, ast.Name)]
+            rets0 = [canon(r.value) for r in A.walk_local(ll) if isinstance(r, ast.Return)]
+            st = [x for x in st if x.targets[0].value.id in rets0]
             if len(st) == 1:
                 v = A.inline_temporaries(st[0].value, st[0], ll)
                 want = "ln_normal(%s.radial_velocity(data.t).to_value(data.rv.unit), data.rv.value, data.rv_err.to_value(data.rv.unit) ** 2 + %s).sum()" % (orb, s)
                 ok = canon(st[0].targets[0].slice) == i and canon(v) == canon(parse(want))
-                why = "lls[%s] = %s" % (A.unparse(st[0].targets[0].slice), A.unparse(v)[:110])
-                if not ok and "data_var + " not in A.unparse(v):
-                    why += ": the jitter variance is not added"
+                why = "row store [%s] = %s" % (A.unparse(st[0].targets[0].slice), A.unparse(v)[:110])
+            else:
+                why = "no single store of the row's value into the returned array"
         else:
-            why = "loop is `for %s in %s`" % (A.unparse(l.target), A.unparse(it))
+            why = "loop `for %s in %s` does not pair the row position with self.orbits and the per-row jitter variances" % (A.unparse(l.target), A.unparse(l.iter)[:60])
     ctx.check(R, lp[0] if lp else ll, "row i: sum ln N(model_i(t) | y, err^2 + s_i^2)", ok, why, key="row")
-    # the per-row jitter variances: the second member of the zip, resolved through its (conditional) definitions
+    # the per-row jitter variances, resolved through their (conditional) definitions
     fl = A.Flow(ll)
     vals = []
-    if lp:
-        it = lp[0].iter
-        if isinstance(it, ast.Call) and isinstance(it.args[0], ast.Call) and len(it.args[0].args) == 2:
-            r = fl.resolve(it.args[0].args[1], at=lp[0])
-            vals = sorted(canon(A.inline_temporaries(x, lp[0], ll)) for x in A.strip_ifexp(r))
+    if svar_src is not None:
+        r = fl.resolve(svar_src, at=lp[0])
+        vals = sorted(canon(A.inline_temporaries(x, lp[0], ll)) for x in A.strip_ifexp(r))
     oks = vals == sorted([canon(parse("self['s'].to_value(data.rv.unit) ** 2")), canon(parse("np.zeros(len(self))"))])
     ctx.check(R, lp[0] if lp else ll, "per-row jitter variance = s^2 in the data unit (0 without a jitter column)", oks, "jitter variances take %s" % vals, key="s_vars")
     rets = [s for s in A.walk_local(ll) if isinstance(s, ast.Return)]
-    ctx.check(R, ll, "returns the per-row values", len(rets) == 1 and canon(rets[0].value) == "lls", "returns %s" % [A.unparse(s.value) for s in rets], key="ret", nontrivial=False)
+    ctx.check(R, ll, "returns the per-row values", len(rets) == 1 and isinstance(rets[0].value, ast.Name), "returns %s" % [A.unparse(s.value) for s in rets], key="ret", nontrivial=False)
     ln = ctx.prog.func(LH, "ln_normal", R)
     rr = [s for s in A.walk_local(ln) if isinstance(s, ast.Return)]
     okn = len(rr) == 1 and equal(rr[0].value, parse("-0.5 * (np.log(2 * np.pi * var) + (x - mu) ** 2 / var)"))
